@@ -267,12 +267,14 @@ impl<Aux> Vm<'_, Aux> {
         let arity;
         let label;
         let mut closure: *mut CaoLangClosure = std::ptr::null_mut();
+        let mut closure_object = std::ptr::null_mut();
         unsafe {
             match &obj.as_ref().body {
                 CaoLangObjectBody::Closure(c) => {
                     arity = c.function.arity;
                     label = c.function.handle;
                     closure = (c as *const CaoLangClosure).cast_mut();
+                    closure_object = obj.as_ptr();
                 }
                 CaoLangObjectBody::Function(f) => {
                     arity = f.arity;
@@ -322,6 +324,7 @@ impl<Aux> Vm<'_, Aux> {
                         .checked_sub(arity)
                         .ok_or(ExecutionErrorPayload::MissingArgument)?,
                     closure,
+                    closure_object,
                 })
                 .map_err(|_| ExecutionErrorPayload::CallStackOverflow)?;
         }
@@ -798,6 +801,7 @@ impl<Aux> Vm<'_, Aux> {
                 dst_instr_ptr: 0,
                 stack_offset: 0,
                 closure: std::ptr::null_mut(),
+                closure_object: std::ptr::null_mut(),
             })
             .map_err(|_| ExecutionErrorPayload::CallStackOverflow)
             .map_err(|pl| ExecutionError::new(pl, Default::default()))?;
